@@ -796,6 +796,10 @@ func builtinSprintfFunc(c Call) (ret Object, err error) {
 }
 
 func builtinGlobalsFunc(c Call) (Object, error) {
+	if c.VM() == nil {
+		// called through the Object interface without a VM
+		return Undefined, nil
+	}
 	return c.VM().GetGlobals(), nil
 }
 
